@@ -6,6 +6,7 @@ import Dmn.Lemmas.DrgSpec
 import Dmn.Lemmas.DrgService
 import Dmn.Lemmas.DrgContext
 import Dmn.Lemmas.DrgBuild
+import Dmn.Lemmas.DrgDfs
 import Dmn.Lemmas.DrgTable
 import Dmn.Props.C03
 import Dmn.Props.C11
@@ -513,7 +514,9 @@ example :
 
 /-! ## `ModelEvaluator::new` refuses requirement cycles (`check_requirements`)
 
-`Drg.checkRequirements` mirrors `check_requirements` (`model_evaluator.rs:54-98`): one map from
+`Drg.checkRequirements` is `check_requirements` (`model_evaluator.rs:54-106`) in its chain-length
+formulation (the code until ba4278d; since then `check_chain` is a depth-first search with the same
+answer on every graph: `Drg.checkRequirements_eq_dfs` in `Lemmas/DrgDfs.lean`, `built_graph_check_is_repaired_check` below): one map from
 identifiers to requirements — decision → required decisions and required knowledge, knowledge
 model → required knowledge, decision service → input, encapsulated and output decisions — and
 no chain of requirements longer than the number of keys.  It differs from `Drg.acyclic` only in
@@ -524,6 +527,14 @@ names a decision counts), whereas the registries of closures — and `rankedBy` 
 look an identifier up per kind and keep the last element.  For documents with unique
 identifiers and well-kinded references the edge sets coincide.  The direction that matters holds
 without any such assumption: -/
+
+/-- The depth-first `check_chain` of the repaired `check_requirements` (ba4278d, `Dmn.ReqDfs.dfs`) gives the
+answer of `Drg.checkRequirements` on every graph and expands every element at most once: the theorems below,
+stated with the chain-length formulation, are theorems about the repaired code. -/
+theorem built_graph_check_is_repaired_check (g : Drg) :
+    g.checkRequirements = ReqDfs.dfsCheck g.requirementsOf g.requirementIds ∧
+    ReqDfs.dfsExpansions g.requirementsOf g.requirementIds ≤ g.requirementCount :=
+  ⟨Drg.checkRequirements_eq_dfs g, Drg.checkRequirements_dfs_linear g⟩
 
 /-- A graph that `ModelEvaluator::new` accepts has a topological numbering (the longest chain of
 requirements below an identifier) bounded by its number of elements. -/
